@@ -1,10 +1,12 @@
 (* Extraction of the executable C03 models (ExtrOcamlBasic only). *)
 From Coq Require Import ExtrOcamlBasic.
 From Coq Require Extraction.
-From LJT Require Import model.Huff model.Seq model.Prog model.Script.
+From LJT Require Import model.Huff model.Seq model.Prog model.Script model.ArithBin.
 Extraction Language OCaml.
 Extraction "x_c03.ml" make_c_derived make_d_derived encode_sym decode_serial
   natural_order seq_enc_scan seq_dec_scan
   dcf_enc_scan dcf_dec_scan dcr_enc_scan dcr_dec_scan
   acf_enc_scan acf_dec_scan acr_enc_scan acr_dec_scan
-  validate_script script_complete.
+  validate_script script_complete
+  aseq_enc_scan aseq_dec_scan adcf_enc_scan adcf_dec_scan adcr_enc_scan adcr_dec_scan
+  aacf_enc_scan aacf_dec_scan aacr_enc_scan aacr_dec_scan.
